@@ -859,12 +859,42 @@ class _ConstSetattr(ast.NodeTransformer):
     visit_FunctionDef = visit_AsyncFunctionDef = visit_ClassDef = visit_Lambda = lambda self, n: n
 
 
+class _UpdateStores(ast.NodeTransformer):
+    """the statement `X.update({"a": u, "b": v})` -- a dict display with literal string keys, X a plain name / attribute / subscript
+    chain that the values do not read -- is the run of element stores `X["a"] = u; X["b"] = v` (a mapping's update assigns key by key,
+    in order)"""
+
+    def visit_Expr(self, st):
+        n = st.value
+        if isinstance(n, ast.Call) and isinstance(n.func, ast.Attribute) and n.func.attr == "update" and len(n.args) == 1 and not n.keywords \
+                and isinstance(n.args[0], ast.Dict) and n.args[0].keys and all(isinstance(k, ast.Constant) and isinstance(k.value, str) for k in n.args[0].keys) \
+                and _pure(n.func.value):
+            base = n.func.value
+            root = base
+            while isinstance(root, (ast.Attribute, ast.Subscript)):
+                root = root.value
+            if isinstance(root, ast.Name) and not any(root.id in _loaded(v) for v in n.args[0].values):
+                out = []
+                for k, v in zip(n.args[0].keys, n.args[0].values):
+                    tgt = ast.Subscript(value=copy.deepcopy(base), slice=k, ctx=ast.Store())
+                    out.append(ast.fix_missing_locations(ast.copy_location(ast.Assign(targets=[tgt], value=v), v)))
+                return out
+        return st
+
+    visit_FunctionDef = visit_AsyncFunctionDef = visit_ClassDef = visit_Lambda = lambda self, n: n
+
+
 def const_getattr(node):
-    """getattr / setattr with a literal attribute name are the attribute read / the attribute assignment"""
+    """getattr / setattr with a literal attribute name are the attribute read / the attribute assignment; a mapping update with a
+    literal display is the run of element stores"""
     node = _ConstGetattr().visit(node)
     if isinstance(node, (ast.FunctionDef, ast.AsyncFunctionDef)):
-        tr = _ConstSetattr()
-        node.body = [tr.visit(st) for st in node.body]
+        for tr in (_ConstSetattr(), _UpdateStores()):
+            body = []
+            for st in node.body:
+                r = tr.visit(st)
+                body.extend(r if isinstance(r, list) else [r])
+            node.body = body
     return ast.fix_missing_locations(node)
 
 
